@@ -119,7 +119,7 @@ class Lock:
 def coq_project():
     """(re)write _CoqProject and Makefile when the set of .v files changed"""
     files = []
-    for d in ('Base', 'Gen', 'Models', 'Proofs', 'Props', 'Extract'):
+    for d in ('Base', 'Gen', 'Models', 'Src', 'Proofs', 'Props', 'Extract'):
         files += sorted(glob.glob(os.path.join(COQ, d, '*.v')))
     rel = [os.path.relpath(f, COQ) for f in files]
     text = ('-Q . QV\n'
